@@ -314,6 +314,11 @@ impl TryFrom<SPDCConfig> for SPDC {
 impl SPDCConfig {
   /// Converts to a [`SPDC`] with the given [`CrystalSetup`]
   pub fn try_as_spdc(self) -> Result<SPDC, SPDCError> {
+    if self.signal.wavelength_nm <= self.pump.wavelength_nm {
+      return Err(SPDCError(
+        "Signal wavelength must be greater than Pump wavelength".into(),
+      ));
+    }
     let deff = self.deff_pm_per_volt * PICO * M / V;
     let pump_spectrum_threshold = self.pump.spectrum_threshold.unwrap_or(1e-2);
     let crystal_theta_autocalc = self.crystal.theta_deg.is_auto();
